@@ -19,7 +19,8 @@ THEOREMS = ["Yaw.C05.fold_perm_invariant", "Yaw.C05.nodup_consistent", "Yaw.C05.
             "Yaw.C05.load_patches_schedule_free", "Yaw.C05.hist_schedule_free",
             "Yaw.C05.arrival_indexed_rows_depend_on_order", "Yaw.C05.accumulation_by_id", "Yaw.C05.glue_pinned",
             "Yaw.C05.assignFold_mem", "Yaw.C05.assignFold_none"]
-RULE = ("cached catalogs (2..6 patches incl. patches with an empty redshift bin, data sparser than randoms) x every "
+RULE = ("cached catalogs (2..6 patches incl. patches with an empty redshift bin, data sparser than randoms, weights "
+        "that are not exactly representable) x every "
         "parallel entry point (Catalog(cache), build_trees, autocorrelate, crosscorrelate, HistData.from_catalog) x "
         "completion orders imposed by a deterministic in-process Pool (results pass through pickle like real worker "
         "results): ALL permutations for <= 4 tasks, identity / reversed / rotated / seeded random beyond, plus real "
@@ -123,6 +124,9 @@ def run(prop, tier, seed, replay):
             sD = G.make_sample(rng, field, n=12 * N, extent_mode="wide", zrange=(0.1, 1.0), edges=edges, weights=True)
             sR = G.make_sample(rng, field, n=25 * N, extent_mode="wide", zrange=(0.1, 1.0), edges=edges, weights=False)
             sU = G.make_sample(rng, field, n=20 * N, extent_mode="wide", zrange=(0.1, 1.0), weights=True)
+            # weights that are not exactly representable: any sum taken in arrival order shows in the last bits
+            for smp in (sD, sU):
+                smp["w"] = np.asarray(smp["w"]) * (0.1 + 0.001 * (np.arange(len(smp["w"])) % 7))
             # a patch of the data without any object in the last redshift bin
             sel = sD["patch"] == 0
             sD["z"][sel & (sD["z"] > 0.7)] = 0.5
